@@ -96,7 +96,7 @@ PROPERTIES = {
         assumptions=["isort/black determinism; equality across two processes beyond order-independence is outside one call's contract"],
     ),
     "C08": dict(
-        modules=["contracts.c08_fragments", "contracts.c10_order", "contracts.c01_inline", "contracts.c01_subtype", "contracts.c01_resolve", "contracts.c01_interface", "contracts.c08_order"],
+        modules=["contracts.c08_fragments", "contracts.c10_order", "contracts.c01_inline", "contracts.c01_subtype", "contracts.c01_resolve", "contracts.c01_interface", "contracts.c08_order", "contracts.c08_mixins"],
         bounded=[_bounded.lazy("contracts.c08_fragments", "bounded_fragment_order"), _bounded.lazy("contracts.e2e_fragments", "bounded_scenarios"),
                  _bounded.lazy("contracts.e2e_plugins", "bounded_plugins"), _bounded.lazy("contracts.e2e_results", "bounded_results"),
                  _bounded.lazy("contracts.e2e_fuzz", "bounded_generated_operations")],
